@@ -1,17 +1,10 @@
 #!/bin/bash
-# tools/merge_copy.sh /tmp/w_Cxx : copy files that a builder created/changed in its private copy into /verif,
-# except the shared registration files (Drv/All.lean, PymotoVerif.lean), evidence, replays, MANIFEST.
-SRC="$1"; DST=/verif
+# tools/merge_copy.sh /tmp/w_Cxx 'regex' : copy the files of a builder's private copy whose path matches the regex
+# (e.g. 'C14|c14|Overhang') into /verif. Shared registration files are never copied.
+SRC="$1"; PAT="$2"; DST=/verif
+[ -z "$PAT" ] && { echo "usage: merge_copy.sh SRC REGEX"; exit 1; }
 cd "$SRC" || exit 1
-rsync -rc --out-format='%n' --exclude='.lake' --exclude='__pycache__' --exclude='.git' --exclude='.deps' \
-  --exclude='evidence' --exclude='replays' --exclude='MANIFEST.json' --exclude='lean/PymotoVerif/Drv/All.lean' \
-  --exclude='lean/PymotoVerif.lean' --exclude='harness/common.py' --exclude='harness/main.py' --exclude='harness/zoo.py' \
-  --exclude='harness/props/c03.py' --exclude='harness/props/c13.py' --exclude='KNOWN_FINDINGS.txt' --exclude='tools' \
-  --exclude='DESIGN.md' --exclude='lean/PymotoVerif/Props/C03.lean' --exclude='lean/PymotoVerif/Drv/C03.lean' \
-  --exclude='lean/PymotoVerif/Core/Component.lean' --exclude='corpus/defects/c0[1347]_*' --exclude='*.pyc' \
-  ./ "$DST"/ | grep -v '/$'
-echo "--- shared files diff (apply by hand):"
-diff <(grep -v "C03\|^$" "$DST/lean/PymotoVerif/Drv/All.lean") <(grep -v "^$" lean/PymotoVerif/Drv/All.lean) | grep '^[<>]'
-diff "$DST/KNOWN_FINDINGS.txt" KNOWN_FINDINGS.txt | grep '^>' 
-diff "$DST/harness/common.py" harness/common.py > /dev/null || echo "common.py differs!"
-diff "$DST/harness/main.py" harness/main.py > /dev/null || echo "main.py differs!"
+find lean/PymotoVerif harness/props corpus -type f ! -name '*.pyc' 2>/dev/null | grep -E "$PAT" | grep -v "Drv/All.lean" | while read f; do
+  if ! cmp -s "$f" "$DST/$f"; then mkdir -p "$DST/$(dirname "$f")"; cp "$f" "$DST/$f"; echo "$f"; fi
+done
+diff "$DST/KNOWN_FINDINGS.txt" KNOWN_FINDINGS.txt | grep '^>'
